@@ -114,7 +114,10 @@ def main():
     pool = [("H2O", "O"), ("HCl", "Cl"), ("NH3", "N"), ("Cl2", "ClCl"), ("NaCl", "[Na+].[Cl-]"), ("AcOH", "CC(=O)O"),
             ("MeOH", "CO"), ("EtOH", "CCO"), ("Br-", "[Br-]"), ("NH4+", "[NH4+]"), ("SO4", "[O-]S(=O)(=O)[O-]"),
             ("U", "[U]"), ("bad1", "C(C"), ("bad2", "xyz"), ("H2", "[H][H]"), ("D2O", "[2H]O[2H]"),
-            ("MeOH", "OC"), ("Methanol", "CO"), ("BH4-", "[BH4-]"), ("Zw", "C[N+](C)(C)CC(=O)[O-]")]
+            ("MeOH", "OC"), ("Methanol", "CO"), ("BH4-", "[BH4-]"), ("Zw", "C[N+](C)(C)CC(=O)[O-]"),
+            # strings RDKit accepts with surrounding whitespace (a file read line by line, a padded CSV cell)
+            ("EtOH pad", "CCO "), ("ethanol pad", "CCO "), ("aqua", " O"), ("water nl", "O\n"), ("ammonia tab", "N\t"),
+            ("EtOH pad2", " CCO")]
     nrand = 40 if tier == "quick" else 600
     for k in range(nrand):
         base = dbs[k % len(dbs)] if k % 3 else []
